@@ -47,6 +47,10 @@ func Division(left, right value.Value) error {
 			} else if rv.IsNegativeInf || math.IsInf(float64(lv.Value)/rv.Value, -1) {
 				lv.Value = math.MinInt64
 				lv.IsNegativeInf = true
+			} else if int64(rv.Value) == 0 {
+				// the divisor is truncated to an integer: 0.5 divides by zero, too
+				lv.IsNAN = true
+				return errors.WithStack(fmt.Errorf("division by zero"))
 			} else {
 				lv.Value /= int64(rv.Value)
 			}
@@ -96,9 +100,15 @@ func Division(left, right value.Value) error {
 		switch right.Type() {
 		case value.IntegerType: // RTIME /= INTEGER
 			rv := value.Unwrap[*value.Integer](right)
+			if rv.Value == 0 {
+				return errors.WithStack(fmt.Errorf("division by zero"))
+			}
 			lv.Value /= time.Duration(rv.Value)
 		case value.FloatType: // RTIME /= FLOAT
 			rv := value.Unwrap[*value.Float](right)
+			if time.Duration(rv.Value) == 0 {
+				return errors.WithStack(fmt.Errorf("division by zero"))
+			}
 			lv.Value /= time.Duration(rv.Value)
 		default:
 			return errors.WithStack(fmt.Errorf("invalid division RTIME type, got %s", right.Type()))
